@@ -1,0 +1,40 @@
+//go:build verif
+
+// Package verifhook is only compiled with the build tag "verif".  It makes
+// the repository's own test fonts (internal/fonttypes, internal/debug/makefont)
+// reachable from an external verification harness; it adds no behaviour of its
+// own.
+package verifhook
+
+import (
+	"seehuhn.de/go/pdf"
+	"seehuhn.de/go/pdf/font"
+	"seehuhn.de/go/pdf/internal/debug/makefont"
+	"seehuhn.de/go/pdf/internal/debug/memfile"
+	"seehuhn.de/go/pdf/internal/fonttypes"
+	"seehuhn.de/go/postscript/afm"
+	"seehuhn.de/go/postscript/type1"
+	"seehuhn.de/go/sfnt"
+)
+
+// Sample is fonttypes.Sample.
+type Sample = fonttypes.Sample
+
+// All returns fonttypes.All, the 18 font/embedding kinds of the test suite.
+func All() []*Sample { return fonttypes.All }
+
+func TrueType() *sfnt.Font     { return makefont.TrueType() }
+func OpenType() *sfnt.Font     { return makefont.OpenType() }
+func OpenTypeCID() *sfnt.Font  { return makefont.OpenTypeCID() }
+func OpenTypeCID2() *sfnt.Font { return makefont.OpenTypeCID2() }
+func Type1() *type1.Font       { return makefont.Type1() }
+func AFM() *afm.Metrics        { return makefont.AFM() }
+
+func Type3() (font.Layouter, error) { return makefont.Type3() }
+
+// NewMemPDFWriter returns a writer on an in-memory file that can be read back
+// through pdf.NewExtractor(w) (memfile.NewPDFWriter).
+func NewMemPDFWriter(v pdf.Version) *pdf.Writer {
+	w, _ := memfile.NewPDFWriter(v, nil)
+	return w
+}
